@@ -648,7 +648,8 @@ def explore(live, r, n_worlds, per_world, corpus=()):
             cases.append(Case(dict(op='feed', text=text, tokens=tokens, world=winfo), oracle_ok=ok, oracle_msg=msg, kind='feed',
                               tags=('feed', 'nested' if any(isinstance(x, list) for x in tokens) else 'flat')))
         for item in corpus:
-            add_eval(item['tokens'], 'corpus', ignored0=item.get('ignored0', False))
+            if 'tokens' in item:
+                add_eval(item['tokens'], 'corpus', ignored0=item.get('ignored0', False))
         for _ in range(per_world.get('full', 0)):
             t = gen_full(r, r.randint(0, 4))
             add_eval(t, 'full', check_full=full_applicable(w))
@@ -673,10 +674,15 @@ def explore(live, r, n_worlds, per_world, corpus=()):
             plug = ['VtOrderA', 'VtOrderB', 'VtOrderC', 'vtordera', 'VTORDERB', 'Misc']
             history = []
             last_marked = {}      # (plugin, command) -> index in history of the successful per-plugin disable
-            for _ in range(per_world['dseq']):
-                verb = r.choice(['disable', 'disable', 'enable'])
-                P = r.choice(plug) if r.random() < 0.65 else None
-                c0 = r.choice(shared)
+            script = [op for item in corpus if 'owner_commands' in item for op in item['owner_commands']] if wi == 0 else []
+            for step in range(per_world['dseq'] + len(script)):
+                if step < len(script):
+                    w_ = script[step].split()
+                    verb, P, c0 = w_[0], (w_[1] if len(w_) == 3 else None), w_[-1]
+                else:
+                    verb = r.choice(['disable', 'disable', 'enable'])
+                    P = r.choice(plug) if r.random() < 0.65 else None
+                    c0 = r.choice(shared)
                 c = cn(c0)
                 text = '%s %s%s' % (verb, (P + ' ') if P else '', c0)
                 rep = live.owner_cmd(text)
@@ -701,9 +707,14 @@ def explore(live, r, n_worlds, per_world, corpus=()):
                         marks.discard((cn(cbP.name()), c))
                 add(Case(dict(op='owner', text=text, history=list(history), world=winfo), impl=impl, kind='dseq',
                          tags=('dseq', verb, 'plugin' if P else 'global', rep.split(':')[0])), line, model_store)
-                for _ in range(2):
+                for j in range(2):
                     g = TreeGen(r)
+                    target = [m for m in sorted(marks) if m[1] == c] if j == 0 else []
                     def pick():
+                        if target and r.random() < 0.7:
+                            # aim at a plugin for which the command of the last operation is (still) recorded as disabled
+                            m = r.choice(target)
+                            return [m[0], m[1]]
                         cc = r.choice(shared[:8])
                         return [r.choice(['vtordera', 'vtorderb', 'vtorderc']), cc] if r.random() < 0.7 else [cc]
                     tokens = g.node(r.randint(0, 2), pick)
@@ -853,6 +864,8 @@ def replay(ctx, path):
     if 'world' in i:
         live.set_world(i['world'])
     if i.get('op') == 'eval':
+        for (text, rep) in i.get('history', []):
+            print('owner command %r -> %s (was %s)' % (text, live.owner_cmd(text), rep))
         res = live.run(i['tokens'])
         print('implementation now: %s\n calls: %s' % (canon_result(res), canon_calls(res['calls'])))
         print('order oracle:', oracle_order(i['tokens'], res, i['world']))
